@@ -114,6 +114,7 @@ def run(sid, props=None):
         drop(wt)
         # the run regenerated lean/Spine/Generated from the changed tree: regenerate it from /repo
         sh("go run -tags verif ./cmd/translate -out ../lean/Spine/Generated", cwd=os.path.join(ROOT, "go"), env=dict(ENV, VERIF_REPO="/repo"))
+        sh("go run . -out ../../lean/Spine/Generated", cwd=os.path.join(ROOT, "go", "lockgraph"), env=dict(ENV, VERIF_REPO="/repo"))
     json.dump({"checked_at": time.strftime("%Y-%m-%dT%H:%M:%S"), "repo_head": sh("git -C /repo rev-parse --short HEAD")[1].strip(),
                "results": results}, open(os.path.join(d, "result.json"), "w"), indent=1)
     # restore the evidence of the unchanged tree is the caller's business (./check rewrites evidence/<id>.json)
